@@ -345,6 +345,47 @@ func init() {
 					} else {
 						r.Evals += int64(st.Execs)
 					}
+					// (3b) a scratch variable shared by the worker closures of ONE call (points as the instrumenter
+					// places them: before and after the statements naming it), found by the unfiltered bounded search
+					wk := func(shared bool) func() string {
+						return func() string {
+							out := make([]int, 4)
+							var scratch int
+							var wg vsched.WaitGroup
+							for w := 0; w < 2; w++ {
+								wg.Add(1)
+								vsched.Go1(func(w int) {
+									defer wg.Done()
+									for i := w * 2; i < w*2+2; i++ {
+										if shared {
+											vsched.GP()
+											scratch = i * 10
+											vsched.GP()
+											vsched.GP()
+											out[i] = scratch
+											vsched.GP()
+										} else {
+											local := i * 10
+											out[i] = local
+										}
+									}
+								}, w)
+							}
+							wg.Wait()
+							return fmt.Sprint(out)
+						}
+					}
+					vsched.GlobalPoints = true
+					stw := explore.Bounded(wk(true), explore.Options{MaxBound: 1, SchedOnly: true, Spread: true})
+					sto := explore.Bounded(wk(false), explore.Options{MaxBound: 1, SchedOnly: true, Spread: true})
+					vsched.GlobalPoints = false
+					if stw.Outcomes["[0 10 20 30]"] == 0 || len(stw.Outcomes) < 2 {
+						fail(r, fmt.Sprintf("scratch variable shared by the workers of one call not found: %v", stw.Outcomes))
+					}
+					if len(sto.Outcomes) != 1 {
+						fail(r, fmt.Sprintf("workers with local scratch reported as schedule-dependent: %v", sto.Outcomes))
+					}
+					r.Evals += int64(stw.Execs + sto.Execs)
 					// (4) correct counterparts give one outcome
 					ok1 := func() func() string {
 						return two(func() func(k int) string {
